@@ -21,6 +21,8 @@ mod c10;
 mod c11;
 mod c12;
 mod c13;
+mod c15;
+mod c15x;
 mod c16;
 mod c17;
 mod c18;
@@ -111,6 +113,7 @@ fn main() {
         "C11" => c11::run(&cfg),
         "C12" => c12::run(&cfg),
         "C13" => c13::run(&cfg),
+        "C15" => c15::run(&cfg),
         "C16" => c16::run(&cfg),
         "C17" => c17::run(&cfg),
         "C18" => c18::run(&cfg),
